@@ -264,7 +264,7 @@ pub fn run(ctx: &Ctx, replay: Option<&serde_json::Value>) {
     ctx.set_rule("TokenPlan (authority + 0..5 first/third-party steps, optional seal, ed25519/secp256r1 for every key) interpreted through the public API; non-trivial = >=2 blocks or a secp256r1 key or sealed; distinct = hash of the plan");
     ctx.assume("ed25519-dalek and p256 primitives are correct (trusted base, shared with the library)");
     ctx.assume("block contents are wire-compatible Datalog (homogeneous sets, no nested sets)");
-    let cases = ctx.tier.pick(3000, 240_000);
+    let cases = ctx.tier.pick(12_000, 240_000);
     let cfg = GenCfg::default();
     ctx.run_prop(
         "history",
